@@ -118,4 +118,11 @@ var propTable = map[string]*propSpec{
 		NotDecided: "equality of behaviour across configurations over all programs; that a recycled register set is indistinguishable from a fresh one (zeroing is checked only as 'released objects are not used again').",
 		Assumptions: []string{"the noscalar tag is not a configuration: at the pinned commit runtime/value_noscalar.go does not compile, and the property does not list it"},
 	},
+	"C20": {
+		ID:    "C20",
+		Rules: []string{"R-GLOBALS", "R-GO"},
+		Explanation: "Decides the structural content of 'two Runtime values share no mutable state': outside package initialisation nothing in the runtime, libraries or front end stores to a package-level variable, into the object one refers to, passes one to a function that writes through that parameter (mod-ref summaries), or calls a standard-library function acting on process-wide state; and nothing but Thread.Start starts a goroutine. Each remaining hit is a listed finding or a table entry.",
+		NotDecided: "behavioural equality of interleaved runs; race freedom in general (state reachable only through a *Runtime that the host itself shares between goroutines is the host's responsibility).",
+		Assumptions: []string{"mod-ref summaries follow static calls; a write through an interface method or function value stored in a package-level variable is not followed", "the process-wide standard-library list was compiled by hand (math/rand top level, debug.Set*, os.Setenv/Chdir, log.Set*)"},
+	},
 }
